@@ -12,6 +12,7 @@ saved JSON against the real reloaded elements; n model cycles (`saveLoad`) again
 cycles; the model's declarative placements against what `create_schematic` did.
 """
 from __future__ import annotations
+import math
 import json, math
 import core, gen_draw as gd
 from props import c13
@@ -665,11 +666,18 @@ def run(ctx, out):
             flagsets = [{}]
             if k in ('Vac', 'Iac'): flagsets += [{'deg': True}, {'sin': True}, {'deg': True, 'sin': True}]
             if k in ('Vrect', 'Irect'): flagsets += [{'deg': True}]
+            # boundary phases: a STORED phase of exactly 0 (falsy) — sin(wt + 90°), a quarter turn in radians, plain 0 in
+            # every notation (seeded change C15-5A: `if stored.get('phi'):` instead of `if 'phi' in stored`)
+            if k in ('Vac', 'Iac'):
+                flagsets += [{'deg': True, 'sin': True, 'phi': 90.0}, {'sin': True, 'phi': math.pi / 2}, {'phi': 0.0},
+                             {'deg': True, 'phi': 0.0}, {'sin': True, 'phi': 0.0}, {'deg': True, 'sin': True, 'phi': 0.0}]
+            if k in ('Vrect', 'Irect'): flagsets += [{'deg': True, 'phi': 0.0}, {'phi': 0.0}]
             for fl in flagsets:
                 if ctx.time_left() < 30: break
                 vals = gd.random_vals(rng, k, flags=False)
                 vals.update(fl)
-                if fl.get('deg'): vals['phi'] = 30.0
+                if 'phi' in fl: out.count('boundary_phase')
+                elif fl.get('deg'): vals['phi'] = 30.0
                 elif k in ('Vac', 'Iac', 'Vrect', 'Irect'): vals['phi'] = 0.5
                 prog = [dict(kind=k, name='X1', vals=vals, rev=rev, a=(0, 0), b=(0, 1), place='dir'),
                         dict(kind='R', name='R1', vals={'R': 10.0}, a=(0, 1), b=(1, 1), place='chain'),
